@@ -72,6 +72,7 @@ PROPS = {
                       "push/pop are modelled as a layer over the lock protocol (Model/Spec PState: a push READS the active specification under the read lock, so it waits for a change in progress, saves it on the stack of its handle clone and is then an ordinary change; a pop is an ordinary change to the specification saved last). Props/C12Push: every run of that layer is a run of the lock protocol (prun_projects), hence the consistency theorem holds for every interleaving of set/push/pop calls (push_pop_consistent), and the specification active in the end is the initial one or one named by a set or push (push_pop_from_submitted). Schedules with a waiting writer AND a waiting reader at the same release are not generated (which of them the RwLock serves first is not specified).",
         "correspondence": "Spec.CState/PState (lock model, push/pop layer) vs real threads parked inside WritersHandle::set_new_spec, incl. push_temp_spec/pop_temp_spec on kept handle clones",
         "rule": "enumeration of interleavings (start_i before finish_i) of 2 and 3 calls with specs of different maximum levels, plus calls parked before the lock while another runs from start to end with coinciding maximum levels; plus 30 (thorough: 300 per seed) push/pop histories on handle clones (push arriving during a change, change arriving during a push, two clones popping in either order); plus free-running races; non-trivial = all cases (quiescence oracle evaluated)",
+        "shrink_secs": 25,
         "trusted": SPEC_TRUST,
         "shards": 2,
     },
